@@ -53,6 +53,10 @@ def r1(ctx):
             ctx.check("C19.R1", a[:3] == [rv, f.params[1] if "req" in f.params[1] else a[1], ev], key(f, "access-args"), site(f, c), "log.access is not called with (resp, req, environ, time)", "access(resp, req, environ, ..)")
             # not inside a loop (one record)
             ctx.check("C19.R1", f.module.enclosing(c, (ast.For, ast.While)) is None, key(f, "not-in-loop"), site(f, c), "the access call is inside a loop", "not in a loop")
+    # (= C05.R2 stale-request clause) a rejected request never re-logs the previous one
+    from . import c05
+    from .common import MultiAlias
+    c05.stale_request(MultiAlias(ctx, {"C05.R2": "C19.R1"}))
     he = ctx.fn(repo.func("gunicorn.workers.base.Worker.handle_error"))
     acc = _access_calls(repo, he)
     ctx.check("C19.R1", len(acc) == 1, key(he, "one-access-call"), site(he), "%d access-log calls in handle_error (at most one record per rejected request)" % len(acc), "one log.access")
